@@ -222,6 +222,11 @@ package ech
 //@   terminates
 //@   ensures[S:nonnil] err == nil ==> hello != nil && fresh(hello) && echInv(hello) && (hello.echExt != nil ==> hello.echExt.Type <= 1)
 //@   ensures[L:parsed] err == nil ==> parsedFrom(hello, buf)
+//@   ensures[F:padding] err == nil && hello.echExt != nil && hello.echExt.Type == 1 ==> forall(j, offset(buf) + chExStart(buf) + chExLen(buf), offset(buf) + len(buf), mem(buf, j) == 0)
+//@   loop 2 "range s"
+//@     invariant[F:zeros] forall(j, offset(s), offset(s) + ri2, mem(s, j) == 0)
+//@   loop 3 "range zeros"
+//@     invariant[F:zeros] forall(j, offset(s), offset(s) + len(s), mem(s, j) == 0) && forall(j, offset(zeros), offset(zeros) + ri3, mem(zeros, j) == 0)
 //@   loop 1 "!extensions.Empty()"
 //@     invariant[L:pos] sameArray(extensions, buf) && offset(extensions) == offset(buf) + chExStart(buf) + chEoff(buf, len(hello.Extensions)) &&
 //@         len(extensions) == chExLen(buf) - chEoff(buf, len(hello.Extensions)) && chEoff(buf, len(hello.Extensions)) >= 0
@@ -305,6 +310,7 @@ package ech
 //@   ensures[F:retry-accept] isRetry && inner != nil ==> h.echExt.ConfigID == c.outer.echExt.ConfigID && h.echExt.CipherSuite == c.outer.echExt.CipherSuite && len(h.echExt.Enc) == 0
 //@   ensures[F:fallback] !isRetry && (!h.tls13 || h.echExt == nil || len(c.keys) == 0) ==> inner == nil && err == nil && c.hpkeCtx == nil
 //@   ensures[F:inner-rules] inner != nil ==> inner.tls13 && h.tls13 && h.echExt != nil && len(c.keys) > 0
+//@   check[F:padding-zero] inner != nil ==> forall(j, offset(msg) + chExStart(msg) + chExLen(msg), offset(msg) + len(msg), mem(msg, j) == 0)
 //@   ensures[F:seq-first] inner != nil && !isRetry ==> hseq(c.hpkeCtx) == 1
 //@   ensures[F:seq-retry] isRetry ==> c.hpkeCtx == old(c.hpkeCtx) && (inner != nil ==> hseq(c.hpkeCtx) == 2) && 1 <= hseq(c.hpkeCtx) && hseq(c.hpkeCtx) <= 2
 //@   loop 1 "range c.keys"
